@@ -24,8 +24,43 @@ def parseRow (d : Nat) (j : Json) : R (Row d) := do
                     (← fBool j "elim"))
   | _ => throw s!"unknown row type {t}"
 
+def parseFC (j : Json) : R (Nat × Rat) := do
+  match j with
+  | .arr a =>
+    if a.size != 2 then throw "face-cell pair expected" else
+    pure ((← jNat a[0]!), (← jRat a[1]!))
+  | _ => throw "face-cell pair expected"
+
+def ofVecss (l : List (List Rat)) : Json := ofList ofRats l
+
+/-- op "grid": a whole 2-D grid.  Answers
+  wf, admissible   decidable side conditions of `mpsa2d_linear_exact`
+  certified        all interaction regions have a verified left inverse (`certs = some _`)
+  cellcols / facecols   the four matrices, column by column: per column `[traction per face, displacement per face]`
+  lin              the scheme applied to the data of the affine field `A x + b` -/
+def handleGrid (j : Json) : R Json := do
+  let G : GridS :=
+    { nodes := (← fRatss j "nodes"), faceNodes := (← fNatss j "face_nodes"),
+      faceCells := (← (field j "face_cells" >>= jList (jList parseFC))),
+      cellCenters := (← fRatss j "cell_centers"), faceCenters := (← fRatss j "face_centers"),
+      faceNormals := (← fRatss j "face_normals"), volShare := (← fRats j "vol_share"),
+      isDir := (← (field j "is_dir" >>= jList jBool)), eta := (← fRat j "eta"),
+      lam := (← fRat j "lam"), mu := (← fRat j "mu") }
+  let A : Mat 2 := matOfLists (← fRatss j "A")
+  let b : Vec 2 := vecOfList (← fRats j "b")
+  let wf := decide G.WF
+  match G.certs with
+  | none => pure (obj [("wf", Json.bool wf), ("admissible", Json.bool G.admissible), ("certified", Json.bool false)])
+  | some Ls =>
+    let (cc, fc) := G.matrices Ls
+    let col (x : List (List Rat) × List (List Rat)) : Json := Json.arr #[ofVecss x.1, ofVecss x.2]
+    let lin := G.apply Ls (G.affineU A b) (G.affineBc A b)
+    pure (obj [("wf", Json.bool wf), ("admissible", Json.bool G.admissible), ("certified", Json.bool true),
+               ("cellcols", ofList col cc), ("facecols", ofList col fc), ("lin", col lin)])
+
 def handle (j : Json) : R Json := do
   let op ← fStr j "op"
+  if op == "grid" then handleGrid j else
   if op != "region" then throw s!"unknown op {op}" else
   let d ← fNat j "d"
   let lam ← fRat j "lam"
